@@ -8,46 +8,43 @@ Local Open Scope Z_scope.
 Ltac Zify.zify_post_hook ::= Z.div_mod_to_equations.
 
 (* ---------------------------------------------------------------- primality by trial division *)
-Definition no_divisor_upto (n : Z) (b : nat) : bool :=
-  forallb (fun d => negb (n mod (Z.of_nat d + 2) =? 0)) (seq 0 b).
-
-Lemma no_divisor_upto_spec n b :
-  no_divisor_upto n b = true -> forall d, 2 <= d < Z.of_nat b + 2 -> n mod d <> 0.
+Fixpoint trial (fuel : nat) (n d : Z) : bool :=
+  match fuel with O => true | S f => negb (n mod d =? 0) && trial f n (d + 1) end.
+Lemma trial_spec fuel n : forall d, trial fuel n d = true ->
+  forall k, d <= k < d + Z.of_nat fuel -> n mod k <> 0.
 Proof.
-  unfold no_divisor_upto. rewrite forallb_forall. intros H d Hd.
-  specialize (H (Z.to_nat (d - 2))). rewrite in_seq in H.
-  replace (Z.of_nat (Z.to_nat (d - 2)) + 2) with d in H by lia.
-  specialize (H ltac:(lia)). destruct (Z.eqb_spec (n mod d) 0); [discriminate | assumption].
+  induction fuel; intros d H k Hk; [lia|].
+  cbn [trial] in H. apply andb_true_iff in H. destruct H as [H1 H2].
+  destruct (Z.eq_dec k d) as [->|Hne].
+  - destruct (Z.eqb_spec (n mod d) 0); [discriminate | assumption].
+  - apply (IHfuel (d + 1) H2). lia.
 Qed.
-
+(* no divisor in [2, b) *)
+Definition trial_ok (n b : Z) : bool := trial (Z.to_nat (b - 2)) n 2.
 Lemma prime_by_trial n b :
-  1 < n -> n < (Z.of_nat b + 2) * (Z.of_nat b + 2) -> no_divisor_upto n b = true -> prime n.
+  1 < n -> 2 <= b -> n < b * b -> trial_ok n b = true -> prime n.
 Proof.
-  intros Hn Hb Hc. apply prime_alt. split; [assumption|].
+  intros Hn Hb2 Hb Hc. apply prime_alt. split; [assumption|].
   intros d Hd [c Hdiv].
-  pose proof (no_divisor_upto_spec n b Hc) as Hs.
-  set (B := Z.of_nat b + 2) in *.
+  assert (Hs : forall k, 2 <= k < b -> n mod k <> 0).
+  { intros k Hk. apply (trial_spec _ _ _ Hc). lia. }
   assert (Hc1 : 1 < c < n) by nia.
-  destruct (Z_lt_le_dec d B) as [Hlt|Hge].
+  destruct (Z_lt_le_dec d b) as [Hlt|Hge].
   - apply (Hs d); [lia|]. subst n. apply Z.mod_mul. lia.
-  - assert (c < B) by nia.
+  - assert (c < b) by nia.
     apply (Hs c); [lia|]. subst n. rewrite Z.mul_comm. apply Z.mod_mul. lia.
 Qed.
+Ltac by_trial b := apply (prime_by_trial _ b); [reflexivity | discriminate | reflexivity | vm_compute; reflexivity].
 
-Lemma prime_7 : prime 7.     Proof. apply (prime_by_trial 7 1); [lia | lia | reflexivity]. Qed.
-Lemma prime_11 : prime 11.   Proof. apply (prime_by_trial 11 2); [lia | lia | reflexivity]. Qed.
-Lemma prime_31 : prime 31.   Proof. apply (prime_by_trial 31 4); [lia | lia | reflexivity]. Qed.
-Lemma prime_151 : prime 151. Proof. apply (prime_by_trial 151 11); [lia | lia | reflexivity]. Qed.
-Lemma prime_331 : prime 331. Proof. apply (prime_by_trial 331 17); [lia | lia | reflexivity]. Qed.
+Lemma prime_7 : prime 7.     Proof. by_trial 3. Qed.
+Lemma prime_11 : prime 11.   Proof. by_trial 4. Qed.
+Lemma prime_31 : prime 31.   Proof. by_trial 6. Qed.
+Lemma prime_151 : prime 151. Proof. by_trial 13. Qed.
+Lemma prime_331 : prime 331. Proof. by_trial 19. Qed.
 
 (* M = 2^31 - 1 is prime: 46340 trial divisions inside the kernel *)
 Lemma prime_M : prime M.
-Proof.
-  apply (prime_by_trial M 46340).
-  - reflexivity.
-  - vm_compute. reflexivity.
-  - vm_compute. reflexivity.
-Qed.
+Proof. by_trial 46342. Qed.
 
 (* ---------------------------------------------------------------- modular exponentiation for the kernel *)
 Fixpoint powm_pos (a : Z) (e : positive) (m : Z) : Z :=
@@ -60,8 +57,8 @@ Lemma powm_pos_spec e : forall a m, 0 < m -> powm_pos a e m = a ^ Zpos e mod m.
 Proof.
   induction e; intros a m Hm; cbn [powm_pos].
   - rewrite IHe by assumption. rewrite Pos2Z.inj_xI.
-    rewrite Z.pow_succ_r by lia. rewrite Z.pow_twice_r.
-    rewrite <- Z.mul_mod by lia. rewrite Z.mul_mod_idemp_l by lia. f_equal. ring.
+    rewrite Z.pow_add_r, Z.pow_1_r by lia. rewrite Z.pow_twice_r.
+    rewrite <- Z.mul_mod by lia. rewrite Z.mul_mod_idemp_l by lia. reflexivity.
   - rewrite IHe by assumption. rewrite Pos2Z.inj_xO. rewrite Z.pow_twice_r.
     rewrite <- Z.mul_mod by lia. reflexivity.
   - rewrite Z.pow_1_r. reflexivity.
